@@ -127,6 +127,10 @@ def histories():
     H["fill-after-a-pin-was-removed-or-replaced"] = [A("x", "input"), A("y", "input"), A("o", "buf", output=True), ("@add_blackbox", ("ft", ["d"], ["q"], "u", {"d": "x", "q": "o"}), {}),
                                                      ("remove", ("u.q",), {}), ("@fill", ("u", "feedthrough"), {}), A("u.q", "and", fanin=["x", "y"]), ("@fill", ("u", "feedthrough"), {}),
                                                      ("fanin", ("u.q",), {}), ("remove", ("u.q",), {}), A("u.q", "bb_output"), ("connect", ("u.q", "o"), {}), ("@fill", ("u", "feedthrough"), {}), ("fanin", ("o",), {})]
+    # ... or put a pin of the OTHER direction under the pin's name (a blackbox input where the instance's output was): refused as well
+    H["fill-after-a-pin-was-replaced-by-a-pin-of-the-other-direction"] = [A("x", "input"), A("y", "input"), A("o", "buf", output=True), ("@add_blackbox", ("ft", ["d"], ["q"], "u", {"d": "x", "q": "o"}), {}),
+                                                                         ("remove", ("u.q",), {}), A("u.q", "bb_input", fanin=["y"]), ("@fill", ("u", "feedthrough"), {}), ("fanin", ("u.q",), {}),
+                                                                         ("remove", ("u.d",), {}), A("u.d", "bb_output"), ("@fill", ("u", "feedthrough"), {}), ("fanin", ("o",), {})]
     H["subcircuit-with-a-loop"] = [A("a", "input"), A("b", "input"), ("is_cyclic", (), {}), ("@add_sub", ("loop", "l0", {"s": "a", "r": "b"}), {}), ("is_cyclic", (), {}), ("remove", ("l0_q",), {}), ("is_cyclic", (), {})]
     H["subcircuit-connections"] = [A("a", "input"), A("b", "input"), A("t1", "buf"), A("t2", "buf", output=True), ("@add_sub", ("ha", "h0", {"x": "a", "y": "a", "c": "t1", "s": "t2"}), {}),
                                    ("@add_sub", ("ha", "h0", None), {}), ("@add_sub", ("ha", "h1", {"x": "t1", "nope": "b"}), {}), ("@add_sub", ("ha", "h2", {"x": "ghost"}), {}),
